@@ -173,6 +173,9 @@ func init() {
 	pcpT := pcpRun
 	pcpT.OnlyThorough = true // ~4 min of string queries: thorough tier (and ./check pcp)
 	checks["C02"].Runs = append(checks["C02"].Runs, pcpT)
+	// identity agreement between witness map, bastion handler and feeders (C12), through the
+	// repository's own AsLogMap / config.NewLog
+	checks["C12"].Runs = append(checks["C12"].Runs, runSpec{Harness: pkgOmni + ".VerifBastion", Quick: p("logs", 2, "maxproof", 1, "store", 0, "replay", 0), Thorough: p("logs", 3, "maxproof", 1, "store", 0, "replay", 0), Covers: []string{"bast/200", "bast/404"}})
 	reg(&checkSpec{ID: "vc", Runs: vcRuns(), Assumptions: commonAssumptions})
 	reg(&checkSpec{ID: "litmus", Runs: []runSpec{
 		{Harness: pkgLitmus + ".Arith", Covers: []string{"L/cover-gt", "L/neg-int"}},
@@ -330,55 +333,63 @@ func cmdCheck(args []string) int {
 			Cover string            `json:"cover"`
 			Model map[string]string `json:"model"`
 		}
-		var scs []scen
-		seen := map[string]bool{}
-		nativePkg, nativeTest := "internal/witness", "TestReplayCovers$"
-		for _, rep := range reports {
-			if strings.HasSuffix(rep.Harness, ".VerifBastion") {
-				nativePkg, nativeTest = "omniwitness", "TestReplayBastion$"
-			}
+		families := []struct {
+			suffix, pkg, test string
+			vios              bool // replay violation models of this harness family too
+			anyModel          bool // every violation model is replayable (string-domain models are concrete)
+		}{
+			{".VerifUpdateStep", "internal/witness", "TestReplayCovers$", true, false},
+			{".VerifBastion", "omniwitness", "TestReplayBastion$", false, false},
+			{".VerifParseBodyRoundTrip", "internal/feeder/bastion", "TestReplayParseBody$", true, true},
+			{".VerifParseBodyHashLengths", "internal/feeder/bastion", "TestReplayParseBody$", true, true},
 		}
-		for _, rep := range reports {
-			if !strings.HasSuffix(rep.Harness, ".VerifUpdateStep") && !strings.HasSuffix(rep.Harness, ".VerifBastion") {
-				continue
-			}
-			if nativePkg == "omniwitness" && !strings.HasSuffix(rep.Harness, ".VerifBastion") {
-				continue
-			}
-			var ids []string
-			for c := range rep.Covers {
-				ids = append(ids, c)
-			}
-			sort.Strings(ids)
-			for _, c := range ids {
-				if strings.HasPrefix(c, "replay/") && !seen[c] && rep.Covers[c].Model != nil {
-					seen[c] = true
-					scs = append(scs, scen{Cover: c, Model: rep.Covers[c].Model})
+		for _, fam := range families {
+			var scs []scen
+			seen := map[string]bool{}
+			for _, rep := range reports {
+				if !strings.HasSuffix(rep.Harness, fam.suffix) {
+					continue
+				}
+				var ids []string
+				for c := range rep.Covers {
+					ids = append(ids, c)
+				}
+				sort.Strings(ids)
+				for _, c := range ids {
+					if strings.HasPrefix(c, "replay/") && !seen[c] && rep.Covers[c].Model != nil {
+						seen[c] = true
+						scs = append(scs, scen{Cover: c, Model: rep.Covers[c].Model})
+					}
 				}
 			}
-		}
-		nCover := len(scs)
-		// violations of the one-step harness whose model is replayable are rebuilt natively too
-		var vioIdx []int
-		for vi, v := range violations {
-			if strings.HasSuffix(v.Harness, ".VerifUpdateStep") && v.Kind == "assert" && v.Replayable && v.Model != nil {
-				vioIdx = append(vioIdx, vi)
-				scs = append(scs, scen{Cover: "violation:" + v.Assert, Model: v.Model})
+			nCover := len(scs)
+			// violations of the one-step harness whose model is replayable are rebuilt natively too
+			var vioIdx []int
+			if fam.vios {
+				for vi, v := range violations {
+					if strings.HasSuffix(v.Harness, fam.suffix) && v.Kind == "assert" && (v.Replayable || fam.anyModel) && v.Model != nil {
+						vioIdx = append(vioIdx, vi)
+						scs = append(scs, scen{Cover: "violation:" + v.Assert, Model: v.Model})
+					}
+				}
 			}
-		}
-		if len(scs) > 0 && os.Getenv("WSYM_NO_REPLAY") == "" {
-			replayTotal = nCover
+			if len(scs) == 0 || os.Getenv("WSYM_NO_REPLAY") != "" {
+				continue
+			}
+			replayTotal += nCover
 			os.MkdirAll(filepath.Join(root, ".work"), 0o755)
 			jf := filepath.Join(root, ".work", fmt.Sprintf("replay-%s-%d.json", id, os.Getpid()))
 			b, _ := json.MarshalIndent(scs, "", " ")
 			os.WriteFile(jf, b, 0o644)
-			cmd := exec.Command(filepath.Join(root, "native", "run.sh"), nativePkg, "-v", "-run", nativeTest)
+			cmd := exec.Command(filepath.Join(root, "native", "run.sh"), fam.pkg, "-v", "-run", fam.test)
 			cmd.Env = append(os.Environ(), "WSYM_REPLAY_JSON="+jf)
 			out, err := cmd.CombinedOutput()
 			txt := string(out)
+			got := 0
 			if i := strings.Index(txt, "REPLAYED "); i >= 0 {
-				fmt.Sscanf(txt[i:], "REPLAYED %d ", &replayed)
+				fmt.Sscanf(txt[i:], "REPLAYED %d ", &got)
 			}
+			replayed += got
 			// per-scenario oracle verdicts
 			oracle := map[int]string{}
 			seenSc := map[int]bool{}
@@ -405,14 +416,14 @@ func cmdCheck(args []string) int {
 					violations[vi].Replay = "not-reproduced"
 				}
 			}
-			if err != nil || strings.Contains(txt, "REPLAY MISMATCH") || replayed != replayTotal {
+			if err != nil || strings.Contains(txt, "REPLAY MISMATCH") || got != nCover {
 				for _, l := range strings.Split(txt, "\n") {
 					if strings.Contains(l, "REPLAY MISMATCH") || strings.Contains(l, "FAIL") || strings.Contains(l, "panic") {
 						inconclusive = append(inconclusive, "native replay: "+strings.TrimSpace(l))
 					}
 				}
-				if replayed != replayTotal {
-					inconclusive = append(inconclusive, fmt.Sprintf("native replay validated %d of %d cover witnesses (the encoding or a contract disagrees with the real build)", replayed, replayTotal))
+				if got != nCover {
+					inconclusive = append(inconclusive, fmt.Sprintf("native replay (%s) validated %d of %d cover witnesses (the encoding or a contract disagrees with the real build)", fam.pkg, got, nCover))
 				}
 			}
 			os.Remove(jf)
